@@ -5,6 +5,7 @@
 
 mod fw;
 mod mem;
+mod pkt;
 mod props;
 
 use fw::Tier;
